@@ -349,6 +349,7 @@ def run(ctx):
     t, cf = tlcmod.gen_mc(ctx.work, "AdaptiveRK", "MC_ARK", base, invariants=["NeverPast", "InOrder", "RejectShrinks", "Done"])
     r = ctx.model_check(t, cf, workers=8, coverage=True, label="step controller", timeout=600)
     ctx.check_coverage(r, ["Try"])
+    ctx.check_proof("AdaptiveRK_proofs")       # the same invariants for every number of requested times and trials
     c = dict(base)
     c["LandExactly"] = False
     t, cf = tlcmod.gen_mc(ctx.work, "AdaptiveRK", "MC_ARK_dev", c, invariants=["NeverPast"])
